@@ -60,7 +60,9 @@ var tokKinds = []string{"valid", "valid", "valid", "tracking", "other-deployment
 	// tokens the session codec never issued although they carry a signature of the deployment's own key (another component of the
 	// deployment shares the key, as session and tracking codec already do): another signature algorithm, no session marker,
 	// a tracking token's claims with the audience spelt as a string
-	"own-key-other-alg", "own-key-no-marker", "own-key-tracking-claims"}
+	"own-key-other-alg", "own-key-no-marker", "own-key-tracking-claims",
+	// ... or a token of a component configured without a URL: no audience, no issuer, or neither (a claim that is not there names nobody)
+	"own-key-no-audience", "own-key-no-issuer", "own-key-no-audience-no-issuer"}
 
 func genTokens(g *Rng, tier string) *Plan {
 	k := tokKnobs{LifetimeMs: Pick(g, int64(0), 0, 10_000, 300_000, 86_400_000), SameKey: g.Bool(0.5), OtherDiff: Pick(g, "both", "audience", "issuer")}
@@ -102,16 +104,16 @@ func genTokens(g *Rng, tier string) *Plan {
 		life = 3_600_000
 	}
 	p := &Plan{Knobs: mustJSON(k)}
-	steps := []tokStep{{Kind: "login", User: g.Intn(16)}}
+	steps := []tokStep{{Kind: "login", User: g.Intn(19)}}
 	nlogins := 1
 	n := 3 + g.Intn(9)
 	for i := 0; i < n; i++ {
 		switch g.PickW(2, 10, 4, 1) {
 		case 0:
-			steps = append(steps, tokStep{Kind: "login", User: g.Intn(16)})
+			steps = append(steps, tokStep{Kind: "login", User: g.Intn(19)})
 			nlogins++
 		case 1:
-			ps := tokStep{Kind: "present", Token: Pick(g, tokKinds...), Login: g.Intn(nlogins), Path: Pick(g, "/page", "/page", "/gated/x", "/nested/x")}
+			ps := tokStep{Kind: "present", Token: Pick(g, tokKinds...), Login: g.Intn(nlogins), Path: Pick(g, "/page", "/page", "/gated/x", "/nested/x", "/gatedempty/x")}
 			if g.Bool(0.25) {
 				ps.Method = Pick(g, "POST", "DELETE", "OPTIONS", "OPTIONS", "HEAD", "PUT")
 				ps.Preflight = g.Bool(0.5)
@@ -129,7 +131,7 @@ func genTokens(g *Rng, tier string) *Plan {
 	if g.Bool(0.3) {
 		// two requests in flight at once (every web server runs handlers concurrently): each is judged by its own token
 		if nlogins < 2 {
-			steps = append(steps, tokStep{Kind: "login", User: g.Intn(16)})
+			steps = append(steps, tokStep{Kind: "login", User: g.Intn(19)})
 			nlogins++
 		}
 		for q, n := 0, 1+g.Intn(2); q < n; q++ {
@@ -507,6 +509,19 @@ func execTokens(t *testing.T, p *Plan) *Result {
 					panic(err)
 				}
 				tok = hdr + "." + parts[1] + "." + sig
+			case "own-key-no-audience", "own-key-no-issuer", "own-key-no-audience-no-issuer":
+				parts := strings.Split(tok, ".")
+				cb, _ := base64.RawURLEncoding.DecodeString(parts[1])
+				var m map[string]any
+				_ = json.Unmarshal(cb, &m)
+				if kind != "own-key-no-issuer" {
+					delete(m, "aud")
+				}
+				if kind != "own-key-no-audience" {
+					delete(m, "iss")
+				}
+				nb, _ := json.Marshal(m)
+				tok = resignJWT(parts[0], b64url(nb), d.kp)
 			case "own-key-no-marker", "own-key-tracking-claims":
 				src := tok
 				if kind == "own-key-tracking-claims" {
@@ -584,7 +599,7 @@ func execTokens(t *testing.T, p *Plan) *Result {
 				res.Excluded = "panic (reported under C09)"
 				return res
 			}
-			gatedPath := strings.HasPrefix(st.Path, "/gated/")
+			gatedPath := strings.HasPrefix(st.Path, "/gated/") || strings.HasPrefix(st.Path, "/gatedempty/")
 			ran := len(d.hits)+len(d.nested) > hitsBefore || len(d.gated) > gatedBefore
 			authenticated := ran || (gatedPath && rep.Code == http.StatusForbidden && len(rep.Cookies) == 0 && rep.Header.Get("Location") == "")
 			observed := "NO_SESSION"
@@ -619,6 +634,15 @@ func execTokens(t *testing.T, p *Plan) *Result {
 			for _, v := range u.expectedAttrs()["role"] {
 				if v == "admin" {
 					wantAdmit = true
+				}
+			}
+			if strings.HasPrefix(st.Path, "/gatedempty/") {
+				// this gate asks for the attribute dept to carry the empty string as a value: an attribute that is not there carries nothing
+				wantAdmit = false
+				for _, v := range u.expectedAttrs()["dept"] {
+					if v == "" {
+						wantAdmit = true
+					}
 				}
 			}
 			if gatedPath {
